@@ -71,7 +71,7 @@ class ShortcutDomain(WrapDomain):
         return super().call(it, name, f, args_e, env, e)
 
 
-def check(ctx, F, rule, fid, atoms, consts_edges, mk_domain, spec, alg, label):
+def check_fn(ctx, F, rule, fid, atoms, consts_edges, mk_domain, spec, alg, label):
     """atoms/consts_edges: operand universe (list of (name, Edge)); spec(terms) -> expected term"""
     if not ctx.anchor(rule, fid, fid in F.hir):
         return 0
@@ -134,12 +134,11 @@ def ite_spec(ts):
 
 def run(ctx, F, rule="E-TABLE.shortcut", kinds=("bdd", "tdd", "zbdd")):
     n = 0
-    _check = check
 
-    def check(ctx, F, rule, fid, atoms, consts, mk, spec, alg, label):   # noqa: F811
+    def check(ctx, F, rule, fid, atoms, consts, mk, spec, alg, label):
         if label.split()[0] not in kinds:
             return 0
-        return _check(ctx, F, rule, fid, atoms, consts, mk, spec, alg, label)
+        return check_fn(ctx, F, rule, fid, atoms, consts, mk, spec, alg, label)
     X = [("x", fedge(("atom", "x"))), ("y", fedge(("atom", "y"))), ("z", fedge(("atom", "z")))]
     # BDD apply_ite
     C = [("F", fedge(("const", 0))), ("T", fedge(("const", 1)))]
